@@ -403,6 +403,13 @@ func (c *ClientConn) sendRequestBody(str *RequestStream, body io.ReadCloser, con
 		str.CancelWrite(quic.StreamErrorCode(ErrCodeRequestCanceled))
 		return fmt.Errorf("http: ContentLength=%d with Body length %d", contentLength, n)
 	}
+	if err == nil && n < contentLength {
+		// The body ended before the declared number of bytes was sent.
+		// Don't end the stream cleanly: the peer must not take this for a complete request,
+		// see section 4.1.2 of RFC 9114.
+		str.CancelWrite(quic.StreamErrorCode(ErrCodeRequestCanceled))
+		return fmt.Errorf("http: ContentLength=%d with Body length %d", contentLength, n)
+	}
 	return err
 }
 
